@@ -850,6 +850,7 @@ class Generator:
         records = []
         errors = []
         specs = []
+        twins = []
         for seg in segs:
             if seg[0] == 'text':
                 out.extend(seg[1])
@@ -913,15 +914,31 @@ class Generator:
                                       if c.kind in ('requires', 'ensures', 'decreases') or c.kind.startswith('loop_')]
                     rec['noreturn'] = spec.noreturn
                     records.append(rec)
-                    if probe and spec.qname not in quarantine:
+                    if probe and spec.qname not in quarantine and ('twin:' + spec.qname) not in quarantine:
                         em2 = FnEmitter(spec, sf, self.benchmark, None)
                         plines, _ = em2.emit(probe=True)
                         if spec.noreturn:
                             plines = self.probe_noreturn(plines)
-                        out.append('/* vacuity probe twin of %s */' % spec.qname)
-                        out.extend(plines)
+                        ty = spec.target[0] if spec.mode == 'fn' else None
+                        twins.append('/* vacuity probe twin of %s */' % spec.qname)
+                        if ty:
+                            twins.append('impl %s {' % ty)
+                        twins.extend(plines)
+                        if ty:
+                            twins.append('}')
+                        twins.append('/* end twin */')
                 except (GenError, LexError) as e:
                     errors.append((spec.qname, str(e)))
+        if twins:
+            # place the twins just before the closing of the verus! block
+            idx = None
+            for n_ in range(len(out) - 1, -1, -1):
+                if out[n_].startswith('} // verus!'):
+                    idx = n_
+                    break
+            if idx is None:
+                raise GenError('template has no `} // verus!` line')
+            out[idx:idx] = twins
         text = '\n'.join(out) + '\n'
         # clause line map from markers
         for n_, ln in enumerate(text.split('\n'), 1):
